@@ -133,7 +133,7 @@ func scalarOrVec(t ssa.Type) bool {
 //@   modifies nothing
 //@ func (m *machine) lowerIcmpToFlag(xd, yd backend.SSAValueDefinition, _64 bool)
 //@   trusted
-//@   requires[compared-at-the-width-of-the-compared-values] _64 == (xd.V.Type() == ssa.TypeI64)
+//@   requires[compared-at-the-width-of-the-compared-values] xd.V.Type().IsInt() ==> _64 == (xd.V.Type() == ssa.TypeI64)
 
 //@ func (m *machine) lowerSelect(x, y, cval, ret ssa.Value)
 //@   requires m.c != nil
